@@ -8,4 +8,5 @@ func init() {
 	children["c08die"] = c08.ChildDie
 	children["c08limit"] = c08.ChildLimit
 	children["c08foreign"] = c08.ChildForeign
+	children["c08listen"] = c08.ChildListen
 }
